@@ -491,7 +491,10 @@ func (r *nmRun) publishProbe() *Violation {
 	if v := r.expect("Publish "+tn, err, codes.OK); v != nil {
 		return v
 	}
-	id := resp.(*pubsubpb.PublishResponse).MessageIds[0]
+	id, v := oneMessageID(resp)
+	if v != nil {
+		return v
+	}
 	r.ev("Publish probe %s to %s", marker, tn)
 	var sns []string
 	for n := range r.m.subs {
